@@ -99,4 +99,99 @@ theorem decimal_parser_truncates :
 example : rescale ⟨64, 5, 2⟩ ⟨64, 4, 1⟩ (-135) = some (-14) := by decide
 example : rescale ⟨64, 6, 3⟩ ⟨64, 4, 2⟩ 123456 = none := by decide   -- 123.46 does not fit DECIMAL(4,2)
 
+/-! ## Integer text round trip (`cast/format.rs` then `cast/parse.rs`), for every width and value -/
+
+theorem digitVal_digitChar (d : Nat) (h : d < 10) : digitVal (digitChar d) = some d := by
+  have : d = 0 ∨ d = 1 ∨ d = 2 ∨ d = 3 ∨ d = 4 ∨ d = 5 ∨ d = 6 ∨ d = 7 ∨ d = 8 ∨ d = 9 := by omega
+  rcases this with h | h | h | h | h | h | h | h | h | h <;> subst h <;> decide
+
+def stepD (acc : Option Nat) (c : Char) : Option Nat :=
+  match acc, digitVal c with
+  | some a, some d => some (a * 10 + d)
+  | _, _ => none
+
+theorem natDigits_lt (n : Nat) : ∀ d ∈ natDigits n, d < 10 := by
+  fun_induction natDigits n with
+  | case1 n h => intro d hd; simp at hd; omega
+  | case2 n h ih =>
+    intro d hd
+    rcases List.mem_append.mp hd with hd | hd
+    · exact ih d hd
+    · simp at hd; omega
+
+theorem natDigits_ne_nil (n : Nat) : natDigits n ≠ [] := by
+  fun_induction natDigits n with
+  | case1 n h => simp
+  | case2 n h ih => simp
+
+theorem fold_digits (n : Nat) (a : Nat) :
+    ((natDigits n).map digitChar).foldl stepD (some a) = some (a * 10 ^ (natDigits n).length + n) := by
+  fun_induction natDigits n generalizing a with
+  | case1 n h =>
+    simp [stepD, digitVal_digitChar n h]
+  | case2 n h ih =>
+    rw [List.map_append, List.foldl_append, ih]
+    simp only [List.map_cons, List.map_nil, List.foldl_cons, List.foldl_nil, stepD,
+      digitVal_digitChar (n % 10) (Nat.mod_lt _ (by decide)), List.length_append, List.length_cons, List.length_nil]
+    congr 1
+    rw [Nat.pow_succ]
+    have := Nat.div_add_mod n 10
+    generalize 10 ^ (natDigits (n / 10)).length = p at *
+    have e1 : (a * p + n / 10) * 10 + n % 10 = a * p * 10 + (10 * (n / 10) + n % 10) := by
+      rw [Nat.add_mul]; omega
+    rw [e1, this, Nat.mul_assoc]
+
+
+theorem parseDigits_eq_fold (cs : List Char) (h : cs ≠ []) : parseDigits cs = cs.foldl stepD (some 0) := by
+  cases cs with
+  | nil => exact absurd rfl h
+  | cons c cs => rfl
+
+/-- **Every natural number survives formatting and parsing.** -/
+theorem parse_format_nat (n : Nat) : parseDigits (formatNat n) = some n := by
+  unfold formatNat
+  rw [parseDigits_eq_fold _ (by simp [natDigits_ne_nil])]
+  rw [fold_digits]
+  simp
+
+theorem formatNat_head (n : Nat) : ∃ d cs, d < 10 ∧ formatNat n = digitChar d :: cs := by
+  unfold formatNat
+  cases h : natDigits n with
+  | nil => exact absurd h (natDigits_ne_nil n)
+  | cons d ds =>
+    exact ⟨d, ds.map digitChar, natDigits_lt n d (by rw [h]; simp), by simp⟩
+
+theorem digitChar_ne_sign (d : Nat) (h : d < 10) : digitChar d ≠ '-' ∧ digitChar d ≠ '+' := by
+  have : d = 0 ∨ d = 1 ∨ d = 2 ∨ d = 3 ∨ d = 4 ∨ d = 5 ∨ d = 6 ∨ d = 7 ∨ d = 8 ∨ d = 9 := by omega
+  rcases this with h | h | h | h | h | h | h | h | h | h <;> subst h <;> decide
+
+/-- **Every integer of every width survives formatting and parsing**: for a value in the range of
+the type, parsing the formatted text gives the value back (sign, digits, range check). -/
+theorem parse_format_int (t : IntTy) (v : Int) (h : t.inRange v = true) : parseInt t (formatInt v) = some v := by
+  unfold formatInt
+  by_cases hv : v < 0
+  · simp only [hv, if_true]
+    have hs : t.signed = true := by
+      cases hsg : t.signed
+      · simp [IntTy.inRange, IntTy.lo, hsg] at h
+        omega
+      · rfl
+    have hneg : -((v.natAbs : Nat) : Int) = v := by omega
+    simp only [parseInt, hs, if_true, parse_format_nat, hneg, h]
+  · simp only [hv, if_false]
+    obtain ⟨d, cs, hd, hfmt⟩ := formatNat_head v.natAbs
+    have hpos : ((v.natAbs : Nat) : Int) = v := by omega
+    have hp := parse_format_nat v.natAbs
+    rw [hfmt] at hp ⊢
+    obtain ⟨h1, h2⟩ := digitChar_ne_sign d hd
+    unfold parseInt
+    split
+    · rename_i rest heq
+      injection heq with hc _
+      exact absurd hc h1
+    · rename_i rest heq
+      injection heq with hc _
+      exact absurd hc h2
+    · simp [hp, hpos, h]
+
 end GlareModel.Props.C13
